@@ -7,7 +7,7 @@ BASE = json.load(open('/root/.vp/BASELINE.json'))
 # property -> (technique, what is decided, what is not decided)
 CLAIMED = {
  "C01": ("path search with boolean correlation on go/cfg from every effective mutation site of the write handlers; must-pass-through of the empty-collection cleanup",
-         "two clauses only: (a) 'an error or negative answer changes nothing' — in every write handler no feasible path leads from an effective mutation of the keyspace, a collection or the hook registry to a return carrying a non-nil error or the NX/XX negative reply; (b) 'a collection exists iff it holds an object' — every deletion of an object from a keyspace collection is followed on all normal paths by the Count() == 0 → cols.Delete cleanup, and a collection registered while empty receives an object on every path that follows",
+         "two clauses only: (a) 'an error or negative answer changes nothing' — in every write handler no feasible path leads from an effective mutation of the keyspace, a collection or the hook registry to a return carrying a non-nil error or the NX/XX negative reply; (b) 'a collection exists iff it holds an object' — every deletion of an object from a keyspace collection is followed on all normal paths by the Count() == 0 → cols.Delete cleanup, and a collection registered while empty receives an object on every path that follows; Count(), which the cleanup tests, is maintained symmetrically by every insertion and removal site (R19.delta)",
          "equivalence of replies and visible state with the map model over all programs, and exact read-back of objects and field values (value-level; no static argument in reach)"),
  "C03": ("call-graph effect analysis vs extracted command tables; must-pass-through on go/cfg",
          "logging discipline: every handler that can mutate persistent state is in the logged/exclusive/gated write class (computed effects vs the lock table), every apply site passes writeAOF on all non-error paths inside the same critical section, mutations are followed by commandDetails.updated, every name that can reach the log is re-executable at start-up",
@@ -25,10 +25,10 @@ CLAIMED = {
          "EVAL/EVALSHA hold the exclusive lock for the whole script and EVALRO the shared lock, with no lock operation inside; the read-only class offers no handler with a write effect; script writes pass writeAOF in the same critical section; the script environment equals the reviewed allow-list and its Go functions reach no os/net/syscall function; new globals raise; per-call globals are cleared on every path before a state returns to the pool; the script class is bound to EVAL_CMD which only cmdEvalUnified sets",
          "the Go-level behaviour of the allow-listed gopher-lua builtins (trusted); interleavings are covered by the lock argument, not enumerated"),
  "C09": ("dominance and who-may-call rules on go/cfg; table agreement between the rewrite's emitter and the command parsers",
-         "the rewrite protocol: writes during a shrink are captured whenever they reach the live log; the final step is one exclusive critical section ordered flush → copy shrink log → sync → close → rename(new→live) → reopen → seek → size update; the live log is never renamed away or removed; the option words the rewrite emits are parsed by SET / SETHOOK; the batch cursors resume at the element that stopped the batch",
+         "the rewrite protocol: writes during a shrink are captured whenever they reach the live log; the final step is one exclusive critical section ordered flush → copy shrink log → sync → close → rename(new→live) → reopen → seek → size update; the live log is never renamed away or removed; followers streaming the old log are registered and closed before the rename (R6.stream-registered); the option words the rewrite emits are parsed by SET / SETHOOK; the batch cursors resume at the element that stopped the batch",
          "value-level round trip of every object and field kind through the emitted SET, and crash instants inside the individual system calls"),
- "C12": ("table agreement (byte and string case-label sets), dominating-guard extraction on go/cfg, sibling agreement",
-         "the shortcut/range machinery around the filters: the literal-prefix scan of glob.Parse stops at every byte the matcher treats as an operator; an empty prefix leaves the range unbounded; every glob-bounded iteration still matches each candidate; a COUNT answered from a counter uses the counter of the index the fallback iterates and is guarded by the absence of every filter the fallback applies; parser and matcher agree on the WHERE operators",
+ "C12": ("table agreement (byte and string case-label sets), dominating-guard extraction on go/cfg, sibling agreement, always-true result analysis of the filter stage, form classification of the range limits",
+         "the shortcut/range machinery around the filters: a filter never ends an iteration (globMatch/testObject report keepGoing = true on every non-error return, pushObject stops only on error, limit or the COUNT comparison); the far range limit of glob.Parse is the successor of the literal prefix (two known findings: prefixes ending in 0xFF); the literal-prefix scan of glob.Parse stops at every byte the matcher treats as an operator; an empty prefix leaves the range unbounded; every glob-bounded iteration still matches each candidate; a COUNT answered from a counter uses the counter of the index the fallback iterates and is guarded by the absence of every filter the fallback applies; parser and matcher agree on the WHERE operators",
          "the glob matching semantics and the value ordering themselves (value-level)"),
  "C19": ("action-set abstraction of the bookkeeping sites (AST), sibling and inverse comparison; who-may-write over resolved field objects",
          "bookkeeping symmetry in internal/collection: both removal sites agree and are the exact inverse of the insertion site in every secondary index and counter, with the same guards and measures; Collection fields are written only by the bookkeeping functions and object fields only by constructors (indexed objects are immutable); the counter accessors return the fields they name; the COUNT shortcuts use the counter of the index they replace",
@@ -36,32 +36,32 @@ CLAIMED = {
  "C02": ("provenance of index rectangles and dominating-predicate extraction on go/cfg; sibling agreement of the two area parsers; repo-wide self-operand lint on resolved geojson methods",
          "index writer and reader use the same quantiser (rtreeRect) for every rectangle; in WITHIN/INTERSECTS, sparse and plain, the user iterator runs only on the true edge of the exact predicate applied to the query object and the index is searched with the query's rectangle; index insert/delete are symmetric (R19.delta); TEST's area parser and the search parser build each area keyword with the same constructors; no geometric predicate is applied to an object and itself",
          "that outward float32 rounding contains every float64 box (numeric), the R-tree itself and the geometric predicates (libraries)"),
- "C20": ("dominating-guard extraction with operand provenance on go/cfg",
-         "in fenceMatchNearbys a candidate is appended only under distance(moved object, candidate) <= roam.meters and an id filter that is glob.Match under roam.pattern and equality otherwise; the reported meters is the distance between those two objects; faraway distances are recomputed against the new position; no self-operand distance",
+ "C20": ("dominating-guard extraction with operand provenance on go/cfg; must-pass-through for in-loop removals",
+         "an element removed from a slice inside an index loop is followed by i-- before the increment (fenceMatchRoam's dwelling filter); in fenceMatchNearbys a candidate is appended only under distance(moved object, candidate) <= roam.meters and an id filter that is glob.Match under roam.pattern and equality otherwise; the reported meters is the distance between those two objects; faraway distances are recomputed against the new position; no self-operand distance",
          "the nearby/faraway set algebra with NODWELL and the distance values themselves"),
- "C11": ("normal-form extraction of the cursor iterators on go/cfg and pairwise/sibling comparison; who-may-write on the cursor counters",
-         "the cursor protocol: every Collection iterator with a Cursor pre-steps the offset once under cursor != nil, and its per-item callback counts, skips while count <= offset without calling the user iterator, steps, then calls the user iterator; scanWriter sets hitLimit only at numberItems == limit and stops there, reports numberIters iff hitLimit, and the counters have single writers",
+ "C11": ("normal-form extraction of the cursor iterators on go/cfg; forward dataflow counting cursor steps per item (exactly-once); who-may-write on the cursor counters; always-true result analysis of the filter stage",
+         "the cursor protocol: along every path through a per-item callback the cursor is stepped zero times for an item skipped by the offset test and exactly once otherwise, before the user iterator; filters never end the iteration; every Collection iterator with a Cursor pre-steps the offset once under cursor != nil, and its per-item callback counts, skips while count <= offset without calling the user iterator, steps, then calls the user iterator; scanWriter sets hitLimit only at numberItems == limit and stops there, reports numberIters iff hitLimit, and the counters have single writers",
          "that concatenated pages equal the unlimited reply (behaviour over datasets and filters)"),
  "C14": ("reviewed provenance table over resolved object.New call sites; structural checks of comparator, scan direction and sweeper callbacks on go/cfg; bookkeeping symmetry of the expiry index",
          "expiry as a logged delete (the sweepers pass writeAOF under the exclusive lock), symmetric maintenance of the expiry index with the same guard on insert and delete, the deadline each handler stores (SET/EXPIRE new, FSET inherited, PERSIST/JSET/JDEL none), the expiry index ordered by deadline first and scanned ascending with the sweepers stopping at the first future deadline",
          "timing (never early / bounded delay against the wall clock) and TTL arithmetic"),
- "C04": ("dominance and must-pass-through on the go/cfg of loadAOF",
-         "the tail-repair protocol of loadAOF: bytes read are counted before parsing; on EOF with an incomplete remainder the size is moved back by its length, the file truncated there and the write offset moved there (truncate and seek paired on all normal paths, errors returned); NUL bytes are tested and skipped before every parse; a non-empty remainder is carried to the next chunk",
+ "C04": ("affine-equality abstract interpretation (Karr) over the go/cfg of loadAOF for the file offsets; must-dataflow for the carry buffer; dominance and must-pass-through",
+         "the tail-repair arithmetic of loadAOF, whatever its shape: the arguments of Truncate and Seek and the final aofsz equal (entry offset + bytes read) - len(carry buffer) on every path (affine invariant; library contracts used: os.File.Read returns io.EOF only with n == 0, redcon.ReadNextCommand consumes nothing when incomplete); truncate and seek are paired on all normal paths and their errors returned; the carry buffer holds exactly the unparsed remainder before every read; NUL bytes are tested and skipped before every parse; a non-empty remainder is carried to the next chunk",
          "that the recovered state equals the prefix state (value-level) and RESP framing (library)"),
- "C06": ("dominating-guard extraction and must-pass-through on go/cfg; sibling agreement reset ~ FLUSHDB; command-table read gate",
-         "the resync protocol: caught-up is declared only under own position >= leader's aof_size and cleared before every reconnect; the position handed to the leader describes the local state (position 0 only after the log was re-created and the dataset reset; a truncated position only after truncate → reset → reload → size check); reset clears everything FLUSHDB clears; replicated commands are applied and logged under one exclusive critical section that also covers the generation test; object reads are gated until the follower has caught up once",
+ "C06": ("dominating-guard extraction and must-pass-through on go/cfg; sibling agreement reset ~ FLUSHDB; command-table read gate; lock-state analysis of the follower registry",
+         "the resync protocol: the leader registers a follower's log handle in aofconnM in the same exclusive critical section that opens it and before any byte is streamed, and AOFSHRINK closes every registered connection and file before the rename (no follower keeps streaming a replaced log); caught-up is declared only under own position >= leader's aof_size and cleared before every reconnect; the position handed to the leader describes the local state (position 0 only after the log was re-created and the dataset reset; a truncated position only after truncate → reset → reload → size check); reset clears everything FLUSHDB clears; replicated commands are applied and logged under one exclusive critical section that also covers the generation test; object reads are gated until the follower has caught up once",
          "convergence under arbitrary fault sequences and the checksum search itself"),
  "C05": ("co-update and guard-agreement rules over the hook registries (AST with enclosing guards); table agreement of detect names; lock-state analysis for fence evaluation",
          "the candidate-selection machinery: the seven hook registries are inserted, deleted and cleared together, with the same guards on the respective hook for the two spatial indexes; getQueueCandidates consults all three candidate indexes; the detect names fenceMatch produces are those DETECT accepts (plus roam); fence evaluation and queueing run under the exclusive lock; no geometric predicate compares an object with itself",
          "the enter/exit/inside/outside/cross classification itself and the equality of results over the three transports (value-level)"),
  "C10": ("per-lock interprocedural lock-state dataflow (six auxiliary locks); must-pass-through on go/cfg; table agreement for endpoint protocols",
-         "queue discipline: every access to a subscriber queue, the live-fence stack and buffers, the pub/sub hub table, the follower publish queue and the hook state holds the lock guarding it; the queue index advances under the exclusive server lock; all writes to a subscriber connection go through one closure holding the write lock; a failed webhook send re-inserts the unsent tail (keys, values and ttls from the same index) before giving up; the endpoint manager's mutex is released on every reachable exit",
+         "queue discipline: every access to a subscriber queue, the live-fence stack and buffers, the pub/sub hub table, the follower publish queue and the hook state holds the lock guarding it; the queue index advances under the exclusive server lock; all writes to a subscriber connection go through one closure holding the write lock; Hook.proc reports the queue drained only after an exhaustive scan and a send loop over the whole collected slice, and the manager waits only after that with an unchanged signal counter; a failed webhook send re-inserts the unsent tail (keys, values and ttls from the same index) before giving up; the endpoint manager's mutex is released on every reachable exit",
          "delivery under endpoint failure patterns and exactly-once at the receiver"),
  "C16": ("zone (difference-bound) abstract interpretation over go/cfg for index/slice bounds, with call-site preconditions, return summaries and verified type invariants; must-pass-through rules for pool pairing; dominance rules for reply writers",
-         "'malformed input never crashes the server or affects other connections': every index and slice on strings, argument vectors, byte buffers and arrays in internal/server and internal/glob is proved within bounds on every path (about 450 sites by the analysis, the rest by reviewed exemptions naming one construct or one server-internal unit each); messages are never given an empty argument vector; reply builders that dereference their object are only called with a definitely assigned one; every pooled Lua state is released on every exit, including error returns; handleInputCommand writes exactly one reply per path; every dispatcher recovers the deadline panic",
-         "independence of the replies from TCP segmentation (behaviour of the carry-over buffers over all splits)"),
+         "'malformed input never crashes the server or affects other connections': every index and slice on strings, argument vectors, byte buffers and arrays in internal/server and internal/glob is proved within bounds on every path (about 450 sites by the analysis, the rest by reviewed exemptions naming one construct or one server-internal unit each); messages are never given an empty argument vector; reply builders that dereference their object are only called with a definitely assigned one; every pooled Lua state is released on every exit, including error returns; handleInputCommand writes exactly one reply per path; every dispatcher recovers the deadline panic; the carry buffers of the stream readers (PipelineReader.ReadMessages, loadAOF) hold exactly the unparsed remainder before the next read and at every normal return (must-dataflow)",
+         "independence of the replies from TCP segmentation beyond the carry-buffer invariant (the parsers' own behaviour over all splits)"),
  "C17": ("JSON fragment typing: a JSON lexer over the literal pieces of every hand-assembled chain plus producer classification of every hole (resolved callees, reviewed tables); exhaustiveness of output-mode switches",
-         "'every reply is one valid JSON document': in every hand-assembled JSON chain of the server (concatenations, byte-buffer append sequences, Sprintf formats; about 190 holes) a hole between double quotes is produced by a quote-free text producer and a hole at value position by a JSON value producer, no chain ends inside a string; every OutputType switch has both arms; reply builders get a definitely assigned object and exactly one reply is written per path (R16 rules)",
+         "'every reply is one valid JSON document': in every hand-assembled JSON chain of the server (concatenations, byte-buffer append sequences, Sprintf formats; about 190 holes) a hole between double quotes is produced by a quote-free text producer and a hole at value position by a JSON value producer, no chain ends inside a string; the repository's JSON string encoders take the json.Marshal path for every byte that needs escaping (the byte test is evaluated for all 256 values) and nothing but json.Marshal produces the escaped form; every OutputType switch has both arms; reply builders get a definitely assigned object and exactly one reply is written per path (R16 rules)",
          "agreement of the RESP and JSON encodings on the conveyed result (value-level)"),
 }
 
@@ -110,13 +110,17 @@ def main():
             "name": "t38check",
             "path": "/verif/t38check",
             "serves_properties": sorted(CLAIMED),
-            "kind_free_text": "repository-specific static checker (Go, go/packages + go/types + go/cfg + go/ssa from x/tools v0.29.0): command-table extraction, lock-state dataflow, effect summaries, path rules with boolean correlation, table agreement, JSON fragment typing, bounds-guard prover",
+            "kind_free_text": "repository-specific static checker (Go, go/packages + go/types + go/cfg from x/tools v0.29.0): command-table extraction, interprocedural lock-state dataflow, effect summaries, path rules with boolean correlation, table agreement, JSON fragment typing, zone-domain bounds prover, affine-equality (Karr) analysis, small must/count dataflows",
         }],
         "checks": checks,
         "not_applicable": na,
         "notes": "All claimed properties are claimed at level 'other': each check decides structural necessary conditions (DESIGN.md section 4), not the behavioural statement. Exit 0 pass, 1 VIOLATION, 2 UNDECIDED (also a failure). Repaired defects and known findings: known_findings.txt.",
     }
     json.dump(m, open('/verif/MANIFEST.json', 'w'), indent=1)
+    if os.path.exists('/verif/bin/t38check'):
+        md = subprocess.run(['/verif/bin/t38check', '-list'], env=dict(os.environ, T38_LIST_MD='1'), capture_output=True, text=True).stdout
+        if md.startswith('# Rules'):
+            open('/verif/RULES.md', 'w').write(md)
     print("wrote MANIFEST.json with", len(checks), "checks,", len(na), "not claimed")
 
 main()
